@@ -17,6 +17,66 @@ Definition NextBoundary (b n o : Z) : Prop :=
 Definition next_boundary_b (b n o : Z) : bool :=
   (Z.eqb (o mod b) 0 && Z.leb n o && Z.ltb o (n + b))%Z.
 
+(* ---- tar: where the members are, from the layout alone ---------------------------
+   [off] = offset of the first record. A member's body starts right after its own
+   header block; the extension records in front of it (each with its padded data)
+   belong to it and are not members; a PAX global header is reported as an entry of
+   its own, AFTER its data has been consumed, with size 0. *)
+Fixpoint body_starts (off : Z) (rs : list rawrec) : list (Z * Z) :=
+  match rs with
+  | [] => []
+  | r :: t =>
+      let rest := body_starts (off + rec_len r) t in
+      match r_kind r with
+      | KExt => rest
+      | KGlobal => (off + 512 + r_size r, 0)%Z :: rest
+      | KFile | KHeaderOnly => (off + 512, r_size r)%Z :: rest
+      end
+  end.
+
+(* records archive/tar accepts: no negative size where a data section is read, extension
+   data of at most 1 MiB *)
+Definition RawOk (r : rawrec) : Prop :=
+  match r_kind r with
+  | KHeaderOnly => True
+  | KFile => (0 <= r_size r)%Z
+  | KExt | KGlobal => (0 <= r_size r <= max_special_file_size)%Z
+  end.
+(* the LAST record decides whether "position + hdr.Size" is the end of the data: it must
+   not be a dangling extension header (no member follows: the reader reports EOF and the
+   scan keeps the previous member's values) nor a header-only member whose size field is
+   not zero (hdr.Size then counts bytes that are not in the archive) *)
+Fixpoint EndsOk (rs : list rawrec) : Prop :=
+  match rs with
+  | [] => True
+  | r :: t => match t with
+              | [] => match r_kind r with KExt => False | KHeaderOnly => r_size r = 0%Z | _ => True end
+              | _ => EndsOk t
+              end
+  end.
+
+Fixpoint ends_ok_b (rs : list rawrec) : bool :=
+  match rs with
+  | [] => true
+  | r :: t => match t with
+              | [] => match r_kind r with KExt => false | KHeaderOnly => Z.eqb (r_size r) 0 | _ => true end
+              | _ => ends_ok_b t
+              end
+  end.
+Lemma ends_ok_b_iff rs : ends_ok_b rs = true <-> EndsOk rs.
+Proof.
+  induction rs as [|r t IH]; [cbn; tauto|]. destruct t as [|r2 t]; [|exact IH].
+  cbn. destruct (r_kind r); rewrite ?Z.eqb_eq; try tauto; split; try discriminate; contradiction.
+Qed.
+Definition raw_ok_b (r : rawrec) : bool :=
+  match r_kind r with
+  | KHeaderOnly => true
+  | KFile => (0 <=? r_size r)%Z
+  | KExt | KGlobal => (0 <=? r_size r)%Z && (r_size r <=? max_special_file_size)%Z
+  end.
+Lemma raw_ok_b_iff r : raw_ok_b r = true <-> RawOk r.
+Proof. unfold raw_ok_b, RawOk. destruct (r_kind r); rewrite ?andb_true_iff, ?Z.leb_le; tauto. Qed.
+
 (* ---- architectures ---------------------------------------------------------
    apko writes an architecture as "<GOARCH>" or "<GOARCH>/<variant>" (the
    notation of OCI platform strings, e.g. "arm/v7"); the OCI platform of such a
